@@ -302,9 +302,9 @@ def make_key(tool, r, fam):
     return re.sub(r"\s+", "_", key)
 
 
-EXTRA_MARKS = [("scan_buffers", ("SCANpush_buffer", "SCAN_buffers")), ("open_comment", ("open_comment",)), ("schema_file", ("EXPRESSfind_schema",)),
+EXTRA_MARKS = [("exit_discipline", ("exit-discipline",)), ("scan_buffers", ("SCANpush_buffer", "SCAN_buffers")), ("open_comment", ("open_comment",)), ("schema_file", ("EXPRESSfind_schema",)),
                ("schema_path", ("EXPRESS_PATHinit", "exppath")), ("escape_buffer", ("format_for_stringout",)), ("exprto_python", ("EXPRto_python",)),
-               ("quoted", ("EXPRstring", "EXPRlength", "boundary:quoted")), ("use_cycle", ("SCOPEfind_for_rename", "SCOPE_find_for_rename", "RENAMEresolve", "use_cycle", "imports:")), ("errbuf", ("ERROR_nexterror", "ERROR_vprintf", "ERRORvreport_with_symbol", "errbuf")), ("longexpr", ("exp_output", "format_for_std_stringout")), ("selectsearch", ("EXP_resolve_op_dot_fuzzy", "EXP_resolve_op_group_fuzzy", "EXPresolve_op_dot", "EXPresolve_op_group")),
+               ("quoted", ("EXPRstring", "EXPRlength", "boundary:quoted")), ("use_cycle", ("SCOPEfind_for_rename", "SCOPE_find_for_rename", "RENAMEresolve", "use_cycle", "imports:", "SCHEMA_get_entities_use", "SCOPE_find", "SCOPE_dfs", "TYPE_resolve")), ("errbuf", ("ERROR_nexterror", "ERROR_vprintf", "ERRORvreport_with_symbol", "errbuf")), ("longexpr", ("exp_output", "format_for_std_stringout")), ("selectsearch", ("EXP_resolve_op_dot_fuzzy", "EXP_resolve_op_group_fuzzy", "EXPresolve_op_dot", "EXPresolve_op_group")),
                ("subtype_cycle", ("ENTITYcalculate_inheritance", "ENTITYget_named_attribute", "subtype_cycle")),
                ("wide", ("non_unique_types_string",))]
 
@@ -317,6 +317,84 @@ def site_of(sig):
         if any(m in sig for m in marks):
             return fam
     return None
+
+
+DIAG_RE = re.compile(r"(WARNING PW\d+|ERROR PE\d+)")
+
+
+def judge_exit(r, expect):
+    """problems of one run against the model's prediction `expect` = {status, pending, messages (or None), usage}"""
+    err = r.get("stderr_full")
+    if err is None:
+        err = r["err"]
+    if r["cls"] in ("signal", "sanitizer", "timeout"):
+        return [("crash", f"{r['cls']} [{r['sig']}] rc={r['rc']}")]
+    out = []
+    if r["rc"] != expect["status"]:
+        out.append(("status", f"exit status {r['rc']}, the model says {expect['status']}"))
+    found = len(DIAG_RE.findall(err))
+    if expect.get("pending"):
+        out.append(("lost-diagnostics", f"{expect['pending']} message(s) are still in the -B buffer when the tool exits ({found} printed)"))
+    elif expect.get("messages") is not None and found != expect["messages"]:
+        out.append(("lost-diagnostics" if found < expect["messages"] else "extra-diagnostics", f"{found} diagnostics on stderr, {expect['messages']} were reported"))
+    if r["rc"] not in (0, None) and not err.strip():
+        out.append(("no-diagnostic", f"exit status {r['rc']} and nothing on stderr"))
+    if expect.get("usage") and "usage" not in err.lower():
+        out.append(("no-diagnostic", "no usage text on stderr"))
+    if expect["status"] == 1 and r["rc"] == 1 and "Errors in input" not in err:
+        out.append(("no-trailer", "status 1 without the `Errors in input' line"))
+    for line in err.split("\n"):
+        if len(DIAG_RE.findall(line)) > 1 or (DIAG_RE.search(line) and "rrors in input" in line):
+            out.append(("run-together", f"diagnostics share a line: {line[:160]!r}"))
+            break
+    return out
+
+
+def exit_discipline_stream(ctx, b, model, tmo, disagreements):
+    n = 0
+    seen = set()
+
+    def report(tool, tag, args, data, r, probs, expect, no_input):
+        for kind, text in probs:
+            key = f"exit-discipline:{tool}:{kind}" if kind in ("crash", "status", "no-diagnostic") else f"exit-discipline:{kind}"     # the reporting code is shared by the tools
+            if (key in seen):
+                continue
+            seen.add(key)
+            rep = {"tool": tool, "args": list(args), "no_input": no_input, "class": r["cls"], "exit": r["rc"], "expect": expect,
+                   "input_latin1": data.decode("latin-1"), "stderr": (r.get("stderr_full") or r["err"])[:2500],
+                   "how": "write input to in.exp; run the ASan+UBSan build of <tool> <args>" + ("" if no_input else " in.exp") +
+                          " (ASAN_OPTIONS=detect_leaks=0; {in} in the arguments stands for in.exp)"}
+            ctx.violation(key, f"{tool} {' '.join(args)} on {tag}: {text}", rep)
+    for tag, data, opts, phases, msgs in G.diag_runs():
+        for buffered in (False, True):
+            reply = model.one(f"exitdisc {int(buffered)} {phases[0]} {phases[1]} {phases[2]}")
+            w = reply.split()
+            if not w or w[0] != "exit":
+                disagreements.append(("exit_discipline", tag, "model", reply, "no exit status predicted"))
+                continue
+            expect = {"status": int(w[1]), "pending": int(w[5]), "messages": msgs}
+            args = (["-B"] if buffered else []) + list(opts)
+            for t in R.TOOLS:
+                r = R.run_tool(b, t, data, ctx.work, timeout=tmo, args=tuple(args))
+                ctx.count(1, key=("exitdisc", tag, buffered, t))
+                n += 1
+                probs = judge_exit(r, expect)
+                if probs:
+                    report(t, f"diag:{tag}", args, data, r, probs, expect, False)
+    for tag, argv, verdict in G.command_lines():
+        tag, _, only = tag.partition(":")
+        for t in (only.split(",") if only else R.TOOLS):
+            pred = model.one(f"exit {t} {verdict}")
+            if not pred.startswith("status "):
+                continue
+            expect = {"status": int(pred.split()[1]), "pending": 0, "messages": None, "usage": verdict == "usage"}
+            r = R.run_tool(b, t, G.trivial("schema_only"), ctx.work, timeout=tmo, args=tuple(argv), no_input=True)
+            ctx.count(1, key=("cmdline", tag, t))
+            n += 1
+            probs = judge_exit(r, expect)
+            if probs:
+                report(t, f"cmdline:{tag}", argv, G.trivial("schema_only"), r, probs, expect, True)
+    return n
 
 
 def report_bad(ctx, run, timeout):
@@ -395,7 +473,9 @@ THEOREM_SITE = {
     "C06_inheritance_terminates": ["subtype_cycle"], "C06_named_attribute_terminates": ["subtype_cycle"],
     "C06_no_overflow_non_unique_types": ["wide"], "C06_string_buffer_terminated": ["longexpr"],
     "C06_error_heap_bounded": ["errbuf"], "C06_error_heap_index": ["errbuf"],
-    "C06_rename_search_terminates": ["use_cycle"], "C06_no_overflow_scan_buffers": ["scan_buffers"], "C06_no_overflow_open_comment": ["open_comment"],
+    "C06_nonzero_exit_has_diagnostic": ["exit_discipline"], "C06_zero_exit_no_error_nothing_buffered": ["exit_discipline"],
+    "C06_run_ends_and_abort_after_diagnostic": ["exit_discipline"], "C06_every_exit_site_prints": ["exit_discipline"],
+    "C06_rename_search_terminates": ["use_cycle"], "C06_import_graph_walks_terminate": ["use_cycle"], "C06_no_overflow_scan_buffers": ["scan_buffers"], "C06_no_overflow_open_comment": ["open_comment"],
     "C06_no_overflow_schema_file_name": ["schema_file", "schema_path"], "C06_schema_path_leaf_in_range": ["schema_path"],
     "C06_no_overflow_escape_buffer": ["escape_buffer"], "C06_no_overflow_exprto_python": ["exprto_python"],
     "C06_select_qualifier_terminates": ["selectsearch"], "C06_nesting_bounded": ["deep_left_sum", "stmt_if", "nested_aggr_type"],
@@ -634,6 +714,8 @@ def run(ctx):
                 run_.bad.append((f"exit:{verdict}", b"", None, None, r))
             elif pred != f"status {r['rc']}":
                 disagreements.append(("exit", verdict, t, pred, f"rc={r['rc']} ({r['cls']})"))
+    # exit-status discipline: inputs with a known sequence of reports, with and without -B; invocations without an input file
+    ncomp += exit_discipline_stream(ctx, b, model, tmo, disagreements)
     ctx.cov["correspondence"]["boundary"] = {"comparisons": ncomp, "disagreements": len(disagreements),
                                              "wall_s": round(time.time() - t0, 1)}
 
@@ -789,8 +871,14 @@ def replay(ctx, path):
         data = r["input_latin1"].encode("latin-1")
     else:
         data = G.shape(r["family"], r["n"])
-    res = R.run_tool(b, r["tool"], data, ctx.work, timeout=120, args=tuple(r.get("args", ())), env_extra=r.get("env"))
+    res = R.run_tool(b, r["tool"], data, ctx.work, timeout=120, args=tuple(r.get("args", ())), env_extra=r.get("env"), no_input=bool(r.get("no_input")))
     ctx.count(1, key=("replay", r["tool"]))
+    if r.get("expect"):
+        probs = judge_exit(res, r["expect"])
+        print(f"[C06] replay: {r['tool']} {' '.join(r.get('args', []))} -> rc={res['rc']} {probs}", flush=True)
+        for kind, text in probs:
+            ctx.violation(f"exit-discipline:{r['tool']}:{kind}" if kind in ("crash", "status", "no-diagnostic") else f"exit-discipline:{kind}", f"{r['tool']}: {text}", r)
+        return
     print(f"[C06] replay: {r['tool']} -> {res['cls']} rc={res['rc']} {res['sig']}", flush=True)
     if res["cls"] in R.BAD:
         ctx.violation(make_key(r["tool"], res, r.get("family")), f"{r['tool']}: {res['cls']} [{res['sig']}] rc={res['rc']}", r)
